@@ -77,6 +77,13 @@ func modelEval(r *Run, family string, bound int) modelStats {
 	return modelEvalWith(r, family, bound, replayEval)
 }
 
+// ShardSubset: when > 0, only that many of the model's shards are explored
+// (rotating with the seed); the evidence says so.
+var ShardSubset = 0
+
+// ModelFuel is the depth guard constant of the bounded evaluator models.
+var ModelFuel = 64
+
 func modelEvalWith(r *Run, family string, bound int, replay func(*evalVector) (bool, map[string]any)) modelStats {
 	nsh := 6
 	var st modelStats
@@ -84,13 +91,20 @@ func modelEvalWith(r *Run, family string, bound int, replay func(*evalVector) (b
 	seen := map[[20]byte]bool{}
 	tags := map[string]int{}
 	var wg sync.WaitGroup
-	for sh := 0; sh < nsh; sh++ {
+	for k := 0; k < nsh; k++ {
+		if ShardSubset > 0 && k >= ShardSubset {
+			break
+		}
+		sh := (k + int(r.Seed)) % nsh
+		if ShardSubset > 0 {
+			r.Cov["model_shards_explored"] = fmt.Sprintf("%d of %d (rotating with the seed)", ShardSubset, nsh)
+		}
 		wg.Add(1)
 		go func(sh int) {
 			defer wg.Done()
 			dir := filepath.Join(r.Dir, fmt.Sprintf("mc-eval-%s-%d", family, sh))
-			cfg := fmt.Sprintf("SPECIFICATION Spec\nCONSTANTS\n CharOrder <- AsciiOrder\n LowerSet <- AsciiLower\n MaxFuel = 64\n Family = \"%s\"\n Bound = %d\n Shard = %d\n NShards = %d\nINVARIANT TypeOK\nCHECK_DEADLOCK FALSE\n", family, bound, sh, nsh)
-			res, err := tlc.RunModelCfg(dir, "MC_Eval", cfg, 2, "4g", 90*time.Minute, func(js []byte) {
+			cfg := fmt.Sprintf("SPECIFICATION Spec\nCONSTANTS\n CharOrder <- AsciiOrder\n LowerSet <- AsciiLower\n MaxFuel = %d\n Family = \"%s\"\n Bound = %d\n Shard = %d\n NShards = %d\nINVARIANT TypeOK\nCHECK_DEADLOCK FALSE\n", ModelFuel, family, bound, sh, nsh)
+			res, err := tlc.RunModelCfg(dir, "MC_Eval", cfg, 4, "4g", 90*time.Minute, func(js []byte) {
 				h := sha1.Sum(js)
 				mu.Lock()
 				st.Vectors++
